@@ -38,6 +38,12 @@ TREES = [
     ('strs', ['list', [L("'a'"), L("'b'"), L("'c'")]]),
     ('deep', ['list', [['list', [seq('list', 3, 1), seq('list', 3, 5)]], seq('list', 2, 9)]]),
     ('box', ['box', [seq('list', 4)]]),
+    ('box-kw', ['box', [seq('list', 4)], [['tag', seq('tuple', 3, 50)]]]),
+    ('box-2args', ['list', [['box', [L('1')], [['tag', seq('list', 5, 60)]]]]]),
+    ('set-unordered', ['set', [L('8'), L('1'), L('16'), L('3'), L('32')]]),
+    ('fset-unordered', ['frozenset', [L('8'), L('1'), L('16'), L('3')]]),
+    ('set-strs', ['set', [L("'pear'"), L("'apple'"), L("'fig'"), L("'kiwi'")]]),
+    ('dict-of-sets', ['dict', [[L('1'), ['set', [L('24'), L('8'), L('1')]]], [L('2'), seq('list', 3)]]]),
 ]
 
 NOTICE = re.compile(r'\.\.\.and (\d+) more elements')
